@@ -26,6 +26,7 @@ def run(ctx, sess):
     ctx.rule('C13.6', 'string blocks: every copy into a string block is dominated by a compare of its length with the block capacity')
     ctx.rule('C13.8', 'string-block switch: after the reader moves to a fresh string block, no compare mixes a pointer into the old block with one into the new block, nothing is stored through an old-block pointer, the carried-over part ends at the old block\'s cursor, and a string that fills a whole block is rejected')
     ctx.rule('C13.10', 'user data text arrives whole through the threaded writer: jls_twr_user_data queues the measured length (strlen + 1) of a STRING / JSON item on every accepting path, as the synchronous call stores it (shared with C06.12)')
+    ctx.rule('C13.11', 'writer and reader agree on the storage types of user data: every type for which jls_wr_user_data reaches the chunk write (other than behind a test of the list head, the placeholder that opens the list) is a type for which jls_core_user_data reaches the callback')
     ctx.rule('C13.9', 'every stored item is delivered: in the reader loop that hands user data to the callback, no path leads from a chunk that was read successfully to the next iteration of the loop without passing the callback (only error returns leave the loop early)')
     ctx.rule('C13.7', 'absent strings: a char* field of a user definition is never passed to strlen/memcpy without a NULL test')
     r1(ctx, P)
@@ -37,6 +38,7 @@ def run(ctx, sess):
     r7(ctx, P, exc)
     r8(ctx, P)
     r9(ctx, P)
+    storage_types_rule(ctx, P, 'C13.11')
     from .common import relay
     from . import c06 as _src_c06
     relay(ctx, sess, _src_c06.run, {'C06.12': 'C13.10'}, only_functions=('jls_twr_user_data',), minimum=1)
@@ -750,3 +752,46 @@ def r9(ctx, P, rule='C13.9', names=('jls_core_user_data',), minimum=1):
                    'a stored item can be skipped silently: a path leads from a successfully read chunk to the next iteration without calling the callback',
                    w.render() if w else None)
     ctx.floor('delivery loops', n, minimum)
+
+
+def storage_types_rule(ctx, P, rule):
+    """every storage type the user-data writer accepts is one the reader delivers"""
+    w = P.fn('jls_wr_user_data')
+    r = P.fn('jls_core_user_data')
+    ctx.saw(w)
+    ctx.saw(r)
+    names = {it['v']: it['name'] for it in P.enum('jls_storage_type_e')['items']}
+
+    def arms(fn, param_like):
+        out = {}
+        for b in fn.blocks.values():
+            cases = [(s, lab) for s, lab in b.succs if isinstance(lab, tuple) and lab[0] in ('case', 'default')]
+            if not cases or b.cond is None:
+                continue
+            if not any(m.get('op') == 'ref' and param_like in (m.get('name') or '') for m in walk(b.cond)):
+                continue
+            for i_, (s, lab) in enumerate(b.succs):
+                if isinstance(lab, tuple) and lab[0] == 'case':
+                    for v in lab[1]:
+                        out[v] = (b, i_)
+        return out
+    wa, ra = arms(w, 'storage_type'), arms(r, 'storage_type')
+    if len(wa) < 3 or len(ra) < 3:
+        raise AnalysisBroken('storage type switches: writer %s reader %s' % (sorted(wa), sorted(ra)))
+    wr = list(w.calls('jls_raw_wr'))
+    cbs = [ev for ev in r.events('call') if ev.callee is None]
+    if not wr or not cbs:
+        raise AnalysisBroken('jls_wr_user_data / jls_core_user_data: write or callback not found')
+    guard_blocks = {b.id for b in w.blocks.values() if b.cond is not None and any(m.get('op') == 'member' and m.get('field') == 'user_data_head' for m in walk(b.cond))}
+    delivered = {v for v, st in ra.items() if find_path(r, st, lambda e2, facts: 'target' if e2 in cbs else ('stop' if e2.k == 'ret' else None), refine=False) is not None}
+    n = 0
+    for v, st in sorted(wa.items()):
+        reaches = find_path(w, st, lambda e2, facts: 'target' if e2 in wr else ('stop' if e2.k == 'ret' else None), refine=False,
+                            edge_ok=lambda b_, s_, lab: b_.id not in guard_blocks)
+        if reaches is None:
+            continue          # rejected, or accepted only for the placeholder that opens the list
+        n += 1
+        ctx.ob(rule, v in delivered, w.name, 'storage type %s is accepted' % names.get(v, v), w.where(),
+               'the reader delivers items of this type' if v in delivered else
+               'the writer stores an item of type %s anywhere in the list, but jls_core_user_data returns an error when it meets one: every item written after it can no longer be read' % names.get(v, v))
+    ctx.floor('accepted user-data storage types', n, 3)
